@@ -641,3 +641,27 @@ package adt
 //@   ensures [basickind] result && isType(v, *BasicType) && isType(w, *BasicType) ==> v.(*BasicType).K == w.(*BasicType).K
 //@   ensures [sameclass] result && v != w ==> tagOf(v) == tagOf(w) || isType(v, *Num) || isType(v, *String) || isType(v, *Bool) || isType(v, *Bytes) || isType(v, *Null)
 //@   assigns heap
+
+// ---- C19: evaluation never writes through a shared Environment ----
+// Pattern constraints are shared between all arcs they apply to (and between
+// goroutines that evaluate values of one context). Inserting the conjuncts of a
+// matching pattern into an arc needs the arc's label in the environment: it must
+// go into a private copy, never into the environment the constraint carries.
+//@ func (*Vertex).Accept
+//@   assumed A-int: closedness test; may evaluate, never writes an existing Environment
+//@   assigns heap except all Environment.DynamicLabel + all Environment.Up + all Environment.Vertex
+//@ func matchPattern
+//@   assumed A-int: pattern match; may evaluate, never writes an existing Environment
+//@   assigns heap except all Environment.DynamicLabel + all Environment.Up + all Environment.Vertex
+//@ func (*Vertex).insertConjunct
+//@   assumed A-int: records the conjunct in the arc; never writes an existing Environment
+//@   assigns heap except all Environment.DynamicLabel + all Environment.Up + all Environment.Vertex
+//@ func MakeRootConjunct
+//@   assumed A-int: constructor
+//@ func (*Vertex).MatchAndInsert
+//@   may_panic
+//@   requires v != nil && arc != nil
+//@   loop 0 invariant -1 <= rangeindex && forall m *Environment :: {m.DynamicLabel} !fresh(m) ==> m.DynamicLabel == old(m.DynamicLabel) && m.Up == old(m.Up) && m.Vertex == old(m.Vertex)
+//@   loop 1 invariant -1 <= rangeindex && forall m *Environment :: {m.DynamicLabel} !fresh(m) ==> m.DynamicLabel == old(m.DynamicLabel) && m.Up == old(m.Up) && m.Vertex == old(m.Vertex)
+//@   ensures [sharedenv] forall m *Environment :: {m.DynamicLabel} !fresh(m) ==> m.DynamicLabel == old(m.DynamicLabel) && m.Up == old(m.Up) && m.Vertex == old(m.Vertex)
+//@   assigns heap
